@@ -149,9 +149,23 @@ func H_C08_othertaxa() {
 	n := sxParam("n", 4)
 	ref := genTree(n, 0, false)
 	comp := genTree(n, 0, false)
-	// one tip of the compared tree gets a name absent from the reference
 	tipsC := comp.Tips()
-	tipsC[sxChoose("renamed", len(tipsC))].SetName("zz_other")
+	switch sxChoose("difference", 3) {
+	case 0:
+		// one tip of the compared tree gets a name absent from the reference
+		tipsC[sxChoose("renamed", len(tipsC))].SetName("zz_other")
+	case 1:
+		// the compared tree has one more taxon (strict superset)
+		es := comp.Edges()
+		extra := comp.NewNode()
+		extra.SetName("zz_extra")
+		_, _, _, err := comp.GraftTipOnEdge(extra, es[sxChoose("graftedge", len(es))])
+		sxAssert(err == nil, "GraftTipOnEdge")
+	case 2:
+		// the compared tree lacks one taxon (strict subset)
+		sxAssume(n >= 4)
+		sxAssert(comp.RemoveTips(false, tipsC[sxChoose("removed", len(tipsC))].Name()) == nil, "RemoveTips")
+	}
 	tips := sxChoose("tips", 2) == 1
 	identical := sxChoose("identical", 2) == 1
 	sxReach("ready")
@@ -167,6 +181,52 @@ func H_C08_othertaxa() {
 		for st := range stats {
 			sxAssert(st.Err != nil, "CompareWeighted: different taxa rejected with an error")
 		}
+	}
+	sxReach("checked")
+}
+
+// H_C08_weighted_multi: several compared trees through one worker; the records
+// are collected first and checked afterwards (as a caller that sorts by id does).
+func H_C08_weighted_multi() {
+	n := sxParam("n", 4)
+	m := sxParam("m", 2)
+	ref := genTree(n, 0, sxParam("binary", 1) == 1)
+	decorate(ref, lenAll, supNone)
+	comps := make([]*tree.Tree, m)
+	for x := range comps {
+		comps[x] = genTree(n, 0, sxParam("binary", 1) == 1)
+		for i, e := range comps[x].Edges() {
+			l := sxLen(sxName2("c", x) + sxName2("len", i))
+			sxAssume(l >= 0)
+			e.SetLength(l)
+		}
+	}
+	rs := splitsOf(ref, lenAll)
+	full := fullMask(ref, nil)
+	sxReach("ready")
+	stats, err := tree.CompareWeighted(ref, treesChan(comps), true, false, 1)
+	sxAssert(err == nil, "CompareWeighted starts")
+	var recs []tree.WeightedBipartitionStats
+	for st := range stats {
+		recs = append(recs, st)
+	}
+	sxAssert(len(recs) == m, "one record per compared tree")
+	for _, st := range recs {
+		sxAssert(st.Err == nil && st.Id >= 0 && st.Id < m, "record of a compared tree")
+		if st.Id < 0 || st.Id >= m {
+			continue
+		}
+		var wantCommon, wantComp []float64
+		for _, e := range comps[st.Id].Edges() {
+			k := canonMask(maskBelow(e.Right(), e.Left(), nil), full)
+			if r, ok := rs[k]; ok {
+				wantCommon = append(wantCommon, r.length-e.Length())
+			} else {
+				wantComp = append(wantComp, e.Length())
+			}
+		}
+		sxAssert(eqFloats(st.Common, wantCommon), "Common terms of every record stay those of its own tree")
+		sxAssert(eqFloats(st.Tree2, wantComp), "Tree2 terms of every record stay those of its own tree")
 	}
 	sxReach("checked")
 }
